@@ -36,6 +36,9 @@ def run(ctx):
     else:
         r06_4(ctx, lag)
     r06_5(ctx)
+    from . import groups
+    groups.im_core(ctx)
+
 
 
 def find_lag_handler(F):
